@@ -38,6 +38,7 @@ type Contract struct {
 	Func     string
 	Props    []string
 	Requires []*Clause
+	Assumes  []*Clause
 	Ensures  []*Clause
 	Modifies []*ModItem
 	modSrc   []string
@@ -272,6 +273,32 @@ func (e *Engine) recursive(f *ssa.Function) bool {
 }
 
 func (e *Engine) resolveType(s string) (types.Type, error) {
+	s = strings.TrimSpace(s)
+	if strings.HasPrefix(s, "*") {
+		t, err := e.resolveType(s[1:])
+		if err != nil {
+			return nil, err
+		}
+		return types.NewPointer(t), nil
+	}
+	if strings.HasPrefix(s, "[]") {
+		t, err := e.resolveType(s[2:])
+		if err != nil {
+			return nil, err
+		}
+		return types.NewSlice(t), nil
+	}
+	if i := strings.Index(s, "."); i > 0 && !strings.ContainsAny(s, "[]( ") {
+		for _, imp := range e.pkg.Types.Imports() {
+			if imp.Name() == s[:i] {
+				if o := imp.Scope().Lookup(s[i+1:]); o != nil {
+					if tn, ok := o.(*types.TypeName); ok {
+						return tn.Type(), nil
+					}
+				}
+			}
+		}
+	}
 	tv, err := types.Eval(e.fset, e.pkg.Types, token.NoPos, s)
 	if err != nil {
 		return nil, err
@@ -382,6 +409,15 @@ func (e *Engine) parseContracts() {
 		}
 		switch word {
 		case "func", "lemma", "interface":
+			if strings.HasSuffix(rest, "+") { // continuation of an existing contract (generated parts)
+				if c, ok := e.contracts[strings.TrimSuffix(rest, "+")]; ok {
+					cur = c
+					continue
+				}
+				perr(l, "continuation of unknown contract %s", rest)
+				cur = nil
+				continue
+			}
 			cur = &Contract{Func: rest, LoopInv: map[int][]*Clause{}, Flags: map[string]bool{}, Pos: l.pos}
 			if word == "interface" {
 				cur.IsIface = true
@@ -403,6 +439,12 @@ func (e *Engine) parseContracts() {
 				continue
 			}
 			cur.Requires = append(cur.Requires, mkClause(l, rest, fmt.Sprintf("req%d", len(cur.Requires))))
+		case "assume":
+			if cur == nil {
+				perr(l, "assume outside a contract")
+				continue
+			}
+			cur.Assumes = append(cur.Assumes, mkClause(l, rest, fmt.Sprintf("assume%d", len(cur.Assumes))))
 		case "ensures":
 			if cur == nil {
 				perr(l, "ensures outside a contract")
